@@ -133,6 +133,7 @@ type SpyEv struct {
 }
 
 type FilterRT struct {
+	StaticKeys []*SignKey // keys in the configuration file (static JWKS)
 	Spec *FilterSpec
 	Idx  int
 	IdP  *IdP
@@ -225,7 +226,7 @@ func NewWorld(spec *WorldSpec, schedSeed uint64, policy int, faults []Fault) *Wo
 		p := w.IdPs[f.IdP]
 		// one client registration per IdP in this model: the filter that references it
 		p.ClientID, p.ClientSecret, p.RedirectURI = f.ClientID, f.ClientSecret, f.CallbackURI()
-		w.Filters = append(w.Filters, &FilterRT{Spec: f, Idx: i, IdP: p})
+		w.Filters = append(w.Filters, &FilterRT{Spec: f, Idx: i, IdP: p, StaticKeys: append([]*SignKey(nil), p.Published...)})
 		w.addSecret("client-secret", f.ClientSecret)
 	}
 	return w
